@@ -231,6 +231,9 @@ def _chunk(seed, lo, hi, extra):
                     acts = main.diff_trees(xt.to_lxml(L), xt.to_lxml(R), diff_options=opts)
                 except Exception as e:  # noqa
                     acts = []
+            elif idx % 40 == 7:
+                # a long script (the edit script of a large document): hundreds of actions in one format() call
+                acts = [rand_action(r) for _ in range(r.randint(250, 700))]
             else:
                 acts = [rand_action(r) for _ in range(r.randint(0, 6))]
             c["acts"] = acts
